@@ -623,6 +623,285 @@ def corpus_cases(sess, rng, tier, piece, pieces):
     return out
 
 
+# ---------------------------------------------------------------------------------------------
+# session phase: one session walks through codes and highlight styles (stale state between requests)
+# ---------------------------------------------------------------------------------------------
+# A script is a list of symbolic steps run on ONE expression inside the running session:
+#   ("style", S)            set_preference BrailleNavHighlight
+#   ("braille", who)        get_braille of: "none" (""), "nav" (the chosen token id), "absent", "found" (the id the last routing returned)
+#   ("position",)           get_braille_position
+#   ("route", k)            get_navigation_node_from_braille_position at cell k (mod length of the first braille)
+#   ("navset",)             set_navigation_node(nav id, 0)
+#   ("navbraille",)         get_navigation_braille
+def make_script(rng):
+    """style changes between two requests for the same node, cursor routing followed by get_braille of the node found, get_braille(id)
+    after get_navigation_braille / get_braille_position, in varied orders; always starts and ends with highlighting Off"""
+    s1, s2 = rng.choice(STYLES[1:]), rng.choice(STYLES[1:])
+    blocks = [
+        [("style", s1), ("braille", "nav"), ("position",), ("style", "Off"), ("braille", "nav"), ("braille", "none")],
+        [("style", "Off"), ("route", rng.randrange(64)), ("braille", "found"), ("braille", "none")],
+        [("style", "Off"), ("navset",), ("navbraille",), ("braille", "nav"), ("position",), ("braille", "nav")],
+        [("style", s2), ("braille", "nav"), ("braille", "absent"), ("braille", "none"), ("style", "Off"), ("braille", "absent"), ("braille", "nav")],
+        [("style", s2), ("route", rng.randrange(64)), ("style", "Off"), ("braille", "found")],
+        [("style", s1), ("braille", "nav"), ("style", s2), ("braille", "nav"), ("style", "Off"), ("braille", "nav")],
+    ]
+    rng.shuffle(blocks)
+    script = [("style", "Off"), ("braille", "none")]
+    for b in blocks[:rng.randint(2, 4)]:
+        script += b
+    return script + [("style", "Off"), ("braille", "none")]
+
+
+def script_sig(script):
+    out = []
+    for st in script:
+        out.append({"style": "style=%s" % (st[1] if len(st) > 1 else ""), "braille": "B(%s)" % (st[1] if len(st) > 1 else ""), "position": "pos", "route": "route",
+                    "navset": "navset", "navbraille": "navB"}[st[0]])
+    return ">".join(out)
+
+
+def run_script(sess, tree, nav_id, script, st=None, absent_id=ABSENT_ID):
+    """run the script on the expression in the session as it is (its state is part of the test).
+    returns (problems, ok): problems = [(kind, leaked, detail, style, id_kind, step index)]"""
+    code = sess.cfg["code"]
+    r0 = sess.batch([("set_mathml", tree.xml()), ("set_preference", "BrailleNavHighlight", "Off"), ("get_braille", "")], timeout=60)
+    if r0 is None:
+        return [("crash", "", "", "", "", -1)], False
+    if r0[0]["r"] != "ok":
+        return [], True
+    facts = Facts(r0[0]["v"])
+    if not facts.ok:
+        return [], True
+    defined = sess.defined_set()
+    visible = canon.norm(canon.flat_in(tree)) != "" and any(c in defined and not c.isspace() and c not in "\u2061\u2062\u2063\u2064" for c in facts.chars)
+    length = len(r0[2]["v"]) if r0[2]["r"] == "ok" and r0[2]["v"] else 1
+    problems = []
+    style = "Off"
+    found = None
+    i = 0
+    while i < len(script):
+        # everything up to and including the next routing step goes into one batch (the id it returns is needed afterwards)
+        j = i
+        ops = []
+        while j < len(script):
+            step = script[j]
+            if step[0] == "style":
+                ops.append(("set_preference", "BrailleNavHighlight", step[1]))
+            elif step[0] == "braille":
+                who = step[1]
+                arg = "" if who == "none" else (nav_id or ABSENT_ID) if who == "nav" else absent_id if who == "absent" else (found or ABSENT_ID)
+                ops.append(("get_braille", arg))
+            elif step[0] == "position":
+                ops.append(("get_braille_position",))
+            elif step[0] == "route":
+                ops.append(("get_navigation_node_from_braille_position", step[1] % length))
+            elif step[0] == "navset":
+                ops.append(("set_navigation_node", nav_id or ABSENT_ID, 0))
+            elif step[0] == "navbraille":
+                ops.append(("get_navigation_braille",))
+            j += 1
+            if step[0] == "route":
+                break
+        res = sess.batch(ops, timeout=60)
+        if res is None:
+            return problems + [("crash", "", "", "", "", i)], False
+        for k, (op, r) in enumerate(zip(ops, res)):
+            idx = i + k
+            if op[0] == "set_preference":
+                if r["r"] == "ok":
+                    style = op[2]
+                continue
+            if op[0] == "get_navigation_node_from_braille_position":
+                found = r["v"][0] if r["r"] == "ok" and isinstance(r.get("v"), list) else None
+                if st is not None:
+                    st.count("routing_" + r["r"])
+                continue
+            if op[0] not in ("get_braille", "get_navigation_braille"):
+                continue
+            if r["r"] != "ok":
+                if st is not None:
+                    st.count("%s_%s_not_judged" % (op[0], r["r"]))
+                continue
+            if op[0] == "get_braille":
+                arg = op[1]
+                id_kind = "none" if arg == "" else ("valid" if arg in facts.ids else "absent")
+                what = "get_braille(%r)" % arg
+            else:
+                id_kind, what = "none", "get_navigation_braille()"
+            if st is not None:
+                st.count("strings_judged")
+                st.count("session_strings_judged")
+            sres = r["v"]
+            for kind, leaked, detail in judge_string(code, defined, sres, style, id_kind, facts, what):
+                problems.append((kind, leaked, detail, style, id_kind, idx))
+            if op[0] == "get_braille" and visible and sres == "":
+                problems.append(("empty-braille", "", "%s style=%s -> empty string for an expression with visible content" % (what, style), style, id_kind, idx))
+        i = j
+    return problems, True
+
+
+def session_switch(sess, cfg):
+    """move the running session to cfg; False when that failed"""
+    r = sess.batch(B.switch_ops(cfg), timeout=60)
+    if r is None or any(x["r"] != "ok" for x in r):
+        return False
+    sess.cfg = cfg
+    sess.unicode_files = B.selected_unicode_files(sess.d, cfg["code"])
+    return True
+
+
+def replay_sequence(history, cfg, tree, nav_id, script, absent_id=ABSENT_ID):
+    """fresh session: each history entry {cfg, mathml} is selected and its expression brailled once, then cfg is selected and the script run"""
+    first = history[0]["cfg"] if history else cfg
+    sess = B.Session({"code": first["code"], "lang": first["lang"]})
+    try:
+        sess.ensure()
+        for h in history:
+            if not session_switch(sess, h["cfg"]):
+                return [("crash", "", "", "", "", -1)]
+            if sess.batch([("set_mathml", h["mathml"]), ("set_preference", "BrailleNavHighlight", "Off"), ("get_braille", "")], timeout=60) is None:
+                return [("crash", "", "", "", "", -1)]
+        if not session_switch(sess, cfg):
+            return [("crash", "", "", "", "", -1)]
+        return run_script(sess, tree, nav_id, script, absent_id=absent_id)[0]
+    finally:
+        sess.close()
+
+
+def report_sequence(st, seen_pre, history, cfg, tree, nav_id, script, problem, absent_id):
+    """a problem that a single request in a fresh session does not show: the call sequence (and the configurations used before) are part of
+    the witness; both are shrunk together with the expression"""
+    kind, leaked, detail, style, id_kind, idx = problem
+    st.count("raw_violations_in_sequence_" + kind)
+    # coarse on purpose: stale state shows with whatever character / node happens to be asked for
+    pre = ("seq", kind, cfg["code"]) if kind == "highlight-without-node" else ("seq", kind, cfg["code"], history[-1]["cfg"]["code"] if history else "-")
+    if pre in seen_pre:
+        return
+    seen_pre.add(pre)
+
+    def fails(hist, t, scr):
+        for p in replay_sequence(hist, cfg, t, nav_id, scr, absent_id):
+            if p[0] == kind and (kind == "highlight-without-node" or not leaked or set(p[1]) & set(leaked)):
+                return p
+        return None
+    script = script[:idx + 1]
+    if fails(history, tree, script) is None:
+        sig = "%s | %s | in a call sequence, not reproduced from the recorded sequence | %s" % (kind, cps(leaked) or "-", B.cfg_sig(cfg))
+        st.violations.append(core.violation(kind, sig, {"cfg": cfg, "mathml": tree.xml(), "nav_id": nav_id, "script": script, "history": history, "absent_id": absent_id},
+                                            "after %s: %s | %s" % (">".join(h["cfg"]["code"] for h in history), tree.xml()[:500], detail[:500])))
+        return
+    hist = shrink.shrink_list(history, lambda h: fails(h, tree, script) is not None, budget=25)
+    script = shrink.shrink_list(script, lambda sc: fails(hist, tree, sc) is not None, budget=40)
+    small = shrink.shrink_tree(tree, lambda t: fails(hist, t, script) is not None, budget=120, leaf_factory=lambda: [gen.mi("x"), gen.mn("2")])
+    if hist:
+        # the expressions of the history shrink as well (they only have to load what goes stale)
+        for k in range(len(hist)):
+            ht = B.from_xml(hist[k]["mathml"])
+            hs = shrink.shrink_tree(ht, lambda t: fails(hist[:k] + [{"cfg": hist[k]["cfg"], "mathml": t.xml()}] + hist[k + 1:], small, script) is not None,
+                                    budget=60, leaf_factory=lambda: [gen.mi("x"), gen.mn("2")])
+            hist = hist[:k] + [{"cfg": hist[k]["cfg"], "mathml": hs.xml()}] + hist[k + 1:]
+            plain = {"code": hist[k]["cfg"]["code"], "lang": hist[k]["cfg"]["lang"]}
+            if plain != hist[k]["cfg"]:
+                cand = hist[:k] + [{"cfg": plain, "mathml": hs.xml()}] + hist[k + 1:]
+                if fails(cand, small, script) is not None:
+                    hist = cand
+    p = fails(hist, small, script) or problem
+    after = ">".join("%s[%s]" % (h["cfg"]["code"], shape(B.from_xml(h["mathml"]))) for h in hist) or "-"
+    sig = "%s | %s | %s | %s | seq=%s | after=%s" % (kind, cps(p[1]) or "-", shape(small), B.cfg_sig(cfg), script_sig(script), after)
+    st.violations.append(core.violation(kind, sig, {"cfg": cfg, "mathml": small.xml(), "nav_id": nav_id, "script": script, "history": hist, "absent_id": absent_id},
+                                        "session: %s then %s, calls %s on %s | %s" % (after, B.cfg_sig(cfg), script_sig(script), small.xml(), p[2][:500])))
+
+
+def full_table_cases(sess, rng, n):
+    """expressions with characters that only the code's FULL Unicode file defines (script / fraktur / double-struck letters, letterlike
+    symbols, vulgar fractions, rarer operators): the full table is a lazily loaded per-session cache"""
+    _, full = sess.defined()
+    pool = [c for c in full if xml_ok(c) and not (0xE000 <= ord(c) <= 0xF8FF) and not c.isspace() and unicodedata.category(c)[0] != "C"]
+    common = [c for c in "𝒜𝒫ℋℬ𝔄𝔹ℝℂ½⅓¾ℏ℘∯⊛" if c in set(pool)]
+    out = []
+    if not pool:
+        return out
+    for _ in range(n):
+        def tk():
+            c = rng.choice(common) if common and rng.random() < 0.4 else rng.choice(pool)
+            cat = unicodedata.category(c)
+            return token("mn" if cat in ("No", "Nd") else "mi" if cat[0] == "L" else rng.choice(["mo", "mi"]), c)
+        r = rng.random()
+        if r < 0.4:
+            body = gen.mrow(tk(), gen.mo(rng.choice(["+", "=", "⁢", "∈"])), tk())
+        elif r < 0.6:
+            body = gen.N("msup", [tk(), gen.mn(str(rng.randint(2, 9)))])
+        elif r < 0.8:
+            body = gen.mrow(gen.mn(str(rng.randint(1, 99))), tk(), gen.mo("+"), gen.N("mfrac", [tk(), gen.mn("2")]))
+        else:
+            body = gen.mrow(tk(), tk(), gen.mo("="), gen.mi("x"))
+        out.append(gen.math(body))
+    return out
+
+
+def run_session_tour(st, rng, tour, per_step, deadline, seen_pre):
+    sess = B.Session(tour[0])
+    history = []
+    try:
+        sess.ensure()
+        for step, cfg in enumerate(tour):
+            if time.time() > deadline:
+                st.count("stopped_by_time_budget")
+                break
+            if step and not session_switch(sess, cfg):
+                st.inconclusive += 1
+                st.count("switch_failed")
+                break
+            if history:
+                st.add("switches", "%s>%s" % (history[-1]["cfg"]["code"], cfg["code"]))
+            last_xml = None
+            trees = full_table_cases(sess, rng, per_step)
+            for i in range(per_step):
+                k = rng.random()
+                if k < 0.45 and i < len(trees):
+                    tree = trees[i]
+                elif k < 0.75:
+                    tree = gen.Textbook(rng, decimal=".", max_depth=rng.choice([2, 3]), p_ident=0.4).expression()[0]
+                elif k < 0.9:
+                    tree = word_cases(sess, rng, 1)[0]
+                else:
+                    tree = mutate(rng.choice(corpus(None)), rng, sess)
+                ids = add_ids(tree)
+                nav_id = rng.choice(ids) if ids else None
+                absent_id = absent_variant(nav_id, rng)
+                script = make_script(rng)
+                problems, ok = run_script(sess, tree, nav_id, script, st, absent_id)
+                if not ok:
+                    st.inconclusive += 1
+                    return
+                st.evaluations += 1
+                st.count("cases_session")
+                st.nontrivial.add(core.h16("session" + tree.xml() + script_sig(script) + (history[-1]["cfg"]["code"] if history else "")))
+                st.add("configs", B.cfg_sig(cfg) + "/" + cfg["lang"])
+                st.add("codes", cfg["code"])
+                if i == 0 and step == 1:
+                    st.sample({"part": "session", "after": history[-1]["cfg"]["code"], "config": B.cfg_sig(cfg), "mathml": tree.xml()[:300], "calls": script_sig(script)}, limit=5)
+                for pr in problems:
+                    if pr[0] == "crash":
+                        continue
+                    kind, leaked, detail, style, id_kind, idx = pr
+                    # does a single request in a session of its own show it?  then it is an ordinary violation
+                    with B.Session(cfg) as alone:
+                        alone.ensure()
+                        plain, _ = judge_case(alone, tree, nav_id, [style] if style else ["Off"], absent_id=absent_id)
+                    hit = [q for q in plain if q[0] == kind and (kind == "highlight-without-node" or not leaked or set(q[1]) & set(leaked))]
+                    if hit:
+                        report(st, seen_pre, cfg, tree, nav_id, hit[:1], absent_id)
+                    else:
+                        report_sequence(st, seen_pre, list(history), cfg, tree, nav_id, script, pr, absent_id)
+                    break                       # one problem per expression is enough (the others usually follow from it)
+                last_xml = tree.xml()
+            history.append({"cfg": cfg, "mathml": last_xml or "<math><mi>x</mi></math>"})
+            history = history[-3:]             # what a session carries along is the last few tables; older steps are not replayed
+    finally:
+        sess.close()
+
+
 def shard(spec):
     st = core.Stats()
     rng = random.Random(spec["seed"])
@@ -630,6 +909,9 @@ def shard(spec):
     tier = spec["tier"]
     seen_pre = set()
     for item in spec["items"]:
+        if item["part"] == "session":
+            run_session_tour(st, rng, item["tour"], item["per_step"], deadline, seen_pre)
+            continue
         cfg = item["cfg"]
         name = B.cfg_sig(cfg)
         sess = B.Session(cfg)
@@ -725,6 +1007,18 @@ core.PREDICATES["c07_row_separator"] = pred_row_separator
 def replay(witness):
     cfg = witness["cfg"]
     tree = B.from_xml(witness["mathml"])
+    if witness.get("script"):
+        script = [tuple(x) for x in witness["script"]]
+        hist = witness.get("history") or []
+        out = []
+        for kind, leaked, detail, style, id_kind, idx in replay_sequence(hist, cfg, tree, witness.get("nav_id"), script, witness.get("absent_id") or ABSENT_ID):
+            if kind == "crash":
+                continue
+            after = ">".join("%s[%s]" % (h["cfg"]["code"], shape(B.from_xml(h["mathml"]))) for h in hist) or "-"
+            sig = "%s | %s | %s | %s | seq=%s | after=%s" % (kind, cps(leaked) or "-", shape(tree), B.cfg_sig(cfg), script_sig(script[:idx + 1]), after)
+            out.append(core.violation(kind, sig, witness, detail[:700]))
+            break
+        return out
     styles = witness.get("styles") or list(STYLES)
     out = []
     with B.Session(cfg) as sess:
@@ -771,6 +1065,10 @@ def run(tier, seed):
         for p in range(pieces):
             items.append({"cfg": cfg, "part": "chars", "piece": p, "pieces": pieces})
             items.append({"cfg": cfg, "part": "corpus", "piece": p, "pieces": pieces})
+    # sessions that walk through codes (every ordered pair of codes a direct switch) and highlight styles
+    from . import c06
+    tours = c06.make_tours(rng, cfgs, rounds=2 if quick else 10, steps_per_tour=8)
+    items += [{"part": "session", "tour": t, "per_step": 10 if quick else 60} for t in tours]
     rng.shuffle(items)
     nsh = core.NPROC
     budget = 75 if quick else 1500
@@ -790,7 +1088,11 @@ def run(tier, seed):
          "unicodedata %s are only counted (the database is older than the rule files); marker = private use or mathematical alphanumeric" % unicodedata.unidata_version,
          "errors/panics of get_braille and get_navigation_braille are counted, not judged here (C06, C08, C11)"],
         t0,
-        rule="(d) the MathML inputs of the repository's braille tests (inputs only), plain and with small mutations (typeface, digits/letters of the same kind, every "
+        rule="(e) SESSION phase: one session walks through the configurations (every ordered pair of codes a direct switch) and, per expression (textbook, "
+             "characters that only the code's full Unicode file defines, multi-character tokens, corpus), through call sequences: highlight style changed between "
+             "two requests for the same node, cursor routing followed by get_braille of the node found, get_braille(id) after get_navigation_braille / "
+             "get_braille_position; every returned string gets the same oracle; a violation that a single request in a fresh session does not show is "
+             "minimised with its configuration history and call sequence; (d) the MathML inputs of the repository's braille tests (inputs only), plain and with small mutations (typeface, digits/letters of the same kind, every "
              "menclose notation, enclosures), own corpus of the code in full + a sample of the other codes'; "
              "(a) textbook expressions, (b) multi-character tokens built from the code's own characters (capitals, digit-letter mixes, Greek, roman numerals, typefaces, "
              "chemistry, tables, text) and (c) every character that is a key of the code's own unicode.yaml / unicode-full.yaml as mi/mo/mtext(/mn) with and without "
